@@ -523,6 +523,7 @@ class Run:
         self.nrng = np.random.default_rng(ctx.rng.getrandbits(32))
         self.known_hits = {}
         self.known_seen = {}
+        self.sampled = set()
         self.found = 0
 
     # ---- classification -------------------------------------------------------------
@@ -655,7 +656,8 @@ class Run:
         if term and impl[0] == "dom":
             self.check_term(case, impl, region, desc)
 
-        if len(ctx.samples) < 6 and nontrivial and ctx.rng.random() < 0.001:
+        if len(ctx.samples) < 6 and nontrivial and stream not in self.sampled and len(doms[0].shape) >= 2:
+            self.sampled.add(stream)
             ctx.case(sample=dict(desc, declared=repr(impl[1])), nontrivial_key=nontrivial)
         else:
             ctx.case(nontrivial_key=nontrivial)
@@ -804,7 +806,7 @@ def streams(run, tier, full_box=False):
     shapes = all_shapes(3, sizes)
     small_shapes = all_shapes(3, (1, 2, 3)) if not quick else shapes
     bint_sizes = (1, 2, 3, 4) if quick else (1, 2, 3, 4, 5)
-    term_p = 0.06 if quick else 0.3
+    term_p = 0.08 if quick else 0.5
 
     def want_term(batches, p=None):
         return batches if rng.random() < (term_p if p is None else p) else None
